@@ -58,6 +58,8 @@ def run(rep, tier, prop="C01", extra_kinds=()):
     # writing a program leaves it as it was (a second serialisation, or an operation sharing the same list, gives the same text): shared with C13
     from . import c13
     common.guarded(rep, "C13.1", c13.c13_1, rep, common.eff(rep), ix)
+    # ... and so does instantiating it: a loaded template that has been called still serialises to its own script (the instance is deep-fresh)
+    common.guarded(rep, "C13.2", c13.c13_2, rep, common.eff(rep), ix)
     common.guarded(rep, P + ".10", empty_program, rep, ix, P + ".10")
     common.guarded(rep, P + ".9", redeclaration, rep, ix, P + ".9")
     rep.rule(P + ".4", "script structure: metadata keywords, option and argument lists, statement lines and mode lists have the shapes the grammar prescribes; elements are separated by ', '", floor=8)
